@@ -431,7 +431,8 @@ def gridCollect (c : Circ P α) (cfg : ItCfg) (inner : Nat) :
 
 /-- Fuel that always suffices for arguments in a sane range. -/
 def iterFuel (c : Circ P α) (a : ItArgs) (cfg : ItCfg) : Nat :=
-  let span := cfg.maxQ + 3 + a.start.2.natAbs + (match a.stop with | some e => e.2.natAbs | none => 0)
+  let span := cfg.maxQ + c.radixes.length + 3 + a.start.2.natAbs
+    + (match a.stop with | some e => e.2.natAbs | none => 0)
   let cyc := cfg.maxCycle + c.numCycles + 3 + a.start.1.natAbs
     + (match a.stop with | some e => e.1.natAbs | none => 0)
   span * cyc + 8
